@@ -58,6 +58,24 @@ theorem code_trial_evals_inBox (site : Site) (hsite : site ∈ Gen.evalSites) (h
   (greedyUpdate_evals_inBox site acc lbs ubs f hb (code_trialSites_ok site hsite hns)
     (code_greedySites_ok acc hacc hrole) pop ts hp ht).1
 
+/-- every evaluation site of the current source calls the objective exactly once -/
+theorem code_sites_one_eval : ∀ site ∈ Gen.evalSites, (site.ops.filter (· == .eval)).length = 1 := by decide +kernel
+
+/-- **C02 about the translated programs, every objective call counted.**  At the end of every iteration of a greedy task the
+    best agent's fitness is at most every value the objective returned, to a sweep or to a trial. -/
+theorem code_task_greedy_best_is_min (sk : Skeleton) (hsk : sk ∈ Gen.taskSkeletons)
+    (site : Site) (hsite : site ∈ Gen.evalSites) (hns : site.isSweep = false)
+    (acc : AcceptRec) (hacc : acc ∈ Gen.acceptSites) (hrole : acc.role = .greedy)
+    (lbs ubs : List Int) (hb : BoundsOk lbs ubs) (f : Pos → Int) (script : Nat → List Trial)
+    (hscript : ∀ k, ∀ t ∈ script k, ∀ q ∈ t.proposals, q.length = lbs.length)
+    (pop : List Ag) (best : Ag) (h0 : ∀ a ∈ pop, InBox lbs ubs a.pos) (N : Nat) :
+    let s := TaskProg.runTask ⟨sk, Gen.searchClip, Gen.genericSweep⟩ lbs ubs
+      (greedyOracle site acc lbs ubs f script) (TaskSt.start pop best) N
+    (∀ e ∈ s.evals, s.best.fit ≤ e.2) ∧ (∀ e ∈ s.trialEvals, s.best.fit ≤ e.2) :=
+  task_greedy_best_is_min ⟨sk, Gen.searchClip, Gen.genericSweep⟩ site acc lbs ubs f script (code_taskSkeletons_good sk hsk) hb
+    (code_trialSites_ok site hsite hns) (code_greedySites_ok acc hacc hrole) (code_sites_one_eval site hsite)
+    (code_searchClip_fixes lbs ubs) code_genericSweep_isRule hscript pop best h0 N
+
 /-! ### non-vacuity; the model runs (tests) -/
 
 namespace TrialExample
@@ -77,7 +95,8 @@ def a1 : Ag := { pos := [[7]], tpos := [[7]], fit := 100, ref := 2 }
 example :
     let s := TaskProg.runTask ⟨Gen.skel_CS, Gen.searchClip, Gen.genericSweep⟩ [0] [10]
       (greedyOracle siteCS accCS [0] [10] o0.f script) (TaskSt.start [a0, a1] b0) 2
-    s.dumps.map (·.1) = [[([[3]], 3), ([[7]], 7)], [([[3]], 3), ([[0]], 0)]] ∧ s.k = 5 := by decide +kernel
+    s.dumps.map (·.1) = [[([[3]], 3), ([[7]], 7)], [([[3]], 3), ([[0]], 0)]] ∧ s.k = 5 ∧
+      s.trialEvals = [([[3]], 3), ([[10]], 10), ([[0]], 0)] ∧ record s.best = ([[0]], 0) := by decide +kernel
 example : (greedyUpdate siteCS accCS [0] [10] o0.f [a0, a1] (script 1)).2 = [([[3]], 3), ([[10]], 10)] := by decide +kernel
 end TrialExample
 
